@@ -103,16 +103,20 @@ def RM.addLink (s : RM) (a b : Name) : RM :=
   { t with allLinks := insertE (a, b) t.allLinks, edges := addAll ((a, b) :: t.extra a b) t.edges }
 
 /-- `_linked` (F10 repair): does a remaining link make `y` a role of `x`, directly or through the matching
-    function (the two ways `add_link` creates edges) -/
+    function (the two ways `add_link` creates edges; F35: and the way `_get_role` copies a pattern role's users to a
+    name that matches the role pattern) -/
 def linked (f : MatchFn) (links : List Link) (x y : Name) : Bool :=
-  links.any fun l => (l.2 == y && (l.1 == x || f x l.1)) || (l.2 == x && x != y && f y l.2)
+  links.any fun l => (l.2 == y && (l.1 == x || f x l.1)) || (l.2 == x && x != y && f y l.2) ||
+    ((l.1 == x || f x l.1) && f y l.2)
 
 /-- the edges `delete_link(a, b)` takes away under a matching function (F10 repaired): every edge the link
-    gave — to its user, to the nodes matching its user, from its role to the nodes matching its role — unless a
-    remaining link still gives it -/
+    gave — to its user, to the nodes matching its user, from its role to the nodes matching its role, and (F35
+    repaired) from its user / the nodes matching its user to the nodes matching its role — unless a remaining link
+    still gives it -/
 def RM.gone (t : RM) (f : MatchFn) (rest : List Link) (a b : Name) (e : Link) : Bool :=
   ((e.2 == b && t.nodes.contains e.1 && (e.1 == a || f e.1 a)) ||
-   (e.1 == b && t.nodes.contains e.2 && e.2 != b && f e.2 b)) && !linked f rest e.1 e.2
+   (e.1 == b && t.nodes.contains e.2 && e.2 != b && f e.2 b) ||
+   (t.nodes.contains e.1 && (e.1 == a || f e.1 a) && e.2 != b && f e.2 b)) && !linked f rest e.1 e.2
 
 /-- the graph part of `delete_link`: without a matching function the edge is removed and a missing edge is the
     `KeyError` of `set.remove`; under one, the edges in `gone` are removed (never an error) -/
@@ -223,11 +227,13 @@ def DM.getRM (s : DM) (d : Name) : DM × RM :=
   | some rm => (s, rm)
   | none => let rm := s.build d; ({ s with rmMap := s.rmMap ++ [(d, rm)] }, rm)
 
-/-- is the cached manager of domain `d` affected by a change recorded for `dp` (`_affected_role_managers`) -/
+/-- is the cached manager of domain `d` affected by a change recorded for `dp` (`_affected_role_managers`);
+    F36 repaired: the manager of `dp` itself always is (it was built from the links of its own domain whether or
+    not the domain matching function relates the domain to itself) -/
 def DM.affected (s : DM) (d dp : Name) : Bool :=
   match s.dmatchFn with
   | none => d == dp
-  | some dm => dm d dp
+  | some dm => d == dp || dm d dp
 
 def DM.addLink (s : DM) (a b d : Name) : DM :=
   let s := s.touch d
@@ -245,10 +251,10 @@ def deleteInCaches (aff : Name → Bool) (a b : Name) : List (Name × RM) → Li
     else let (rest', e) := deleteInCaches aff a b rest; ((d, rm) :: rest', e)
 
 /-- the cache part of `DomainManager.delete_link`: under a domain matching function the affected cached managers
-    are dropped (F23 repaired); otherwise the cached manager of the domain, if any, deletes the link too -/
+    are dropped (F23 repaired; F36: the domain's own manager is always affected); otherwise the cached manager of the domain, if any, deletes the link too -/
 def DM.delCaches (s : DM) (a b d : Name) : List (Name × RM) × Option Err :=
   match s.dmatchFn with
-  | some dm => (s.rmMap.filter fun e => !dm e.1 d, none)
+  | some dm => (s.rmMap.filter fun e => !(e.1 == d || dm e.1 d), none)
   | none => deleteInCaches (fun d' => d' == d) a b s.rmMap
 
 def DM.deleteLink (s : DM) (a b d : Name) : DM × Option Err :=
